@@ -36,3 +36,5 @@ func remarshal(in any, out any) {
 	b, _ := json.Marshal(in)
 	json.Unmarshal(b, out)
 }
+
+func remarshalRaw(in json.RawMessage, out any) { json.Unmarshal(in, out) }
